@@ -6,6 +6,9 @@ _here = os.path.dirname(os.path.abspath(__file__))
 _s = importlib.util.spec_from_file_location('unit_join_base', os.path.join(_here, '..', 'join', 'unit.py'))
 _join = importlib.util.module_from_spec(_s)
 _s.loader.exec_module(_join)
+_k = importlib.util.spec_from_file_location('unit_kinds_base', os.path.join(_here, '..', 'kinds', 'unit.py'))
+_kinds = importlib.util.module_from_spec(_k)
+_k.loader.exec_module(_kinds)
 
 CS = 'src/changeset.rs'
 
@@ -13,11 +16,18 @@ CS = 'src/changeset.rs'
 def build():
     u = _join.build()
     u.name = 'changeset'
-    u.prelude = u.prelude + [('prelude/dense_stub.rs', 'private')]
-    u.spec = u.spec + ['changeset/spec.rs']
+    # the change set's inner storage is the concrete DenseVecStorage<T>: its real impl is part of this unit
+    u.prelude = u.prelude + [('prelude/std_unsafe.rs', 'private')]
+    u.spec = u.spec + ['kinds/spec.rs', 'changeset/spec.rs']
     u.files = u.files + [CS]
+    _kinds.add_dense(u, extra='C16')
     u.struct(CS, ['struct ChangeSet'], attr='#[verifier::reject_recursive_types(T)]')
     CI = 'impl<T> ChangeSet<T>'
+    NEW_ENS = [E('wf', 'r.wf()'), E('empty', 'r@ == Map::<Index, T>::empty()')]
+    u.fn(CS, ['impl<T> Default for ChangeSet<T>', 'fn default'], ret='r', props='C16', key='ChangeSet::default', impl_header=CI, ensures=NEW_ENS,
+         rules=[('N12', r'inner: Default::default\(\)', 'inner: DenseVecStorage::default()')])
+    u.fn(CS, [CI, 'fn new'], ret='r', props='C16', key='ChangeSet::new', ensures=NEW_ENS,
+         rules=[('N12', r'Default::default\(\)', 'Self::default()')])
     u.fn(CS, [CI, 'fn add'], props='C16', key='ChangeSet::add', n16=True,
          requires=[E('wf', 'old(self).wf()')],
          ensures=[E('wf', 'final(self).wf()'),
